@@ -39,7 +39,7 @@ type Knobs struct {
 type FaultSpec struct {
 	FP   int      `json:"fp"`
 	Hit  int      `json:"hit"`
-	Kind string   `json:"kind"` // "error", "panic", "nil"
+	Kind string   `json:"kind"`           // "error", "panic", "nil"
 	With string   `json:"with,omitempty"` // what a panic fault panics with: "" a string, "lval" a lisp error value, "goerr" the Go error of one, "int", "runtime" a Go runtime error
 	Cond string   `json:"cond,omitempty"`
 	Data []string `json:"data,omitempty"` // raw ints or strings rendered as lisp strings
